@@ -6,6 +6,8 @@ import (
 	"math/rand"
 	"strconv"
 	"strings"
+	"sync"
+	"sync/atomic"
 
 	ber "github.com/go-asn1-ber/asn1-ber"
 	"github.com/go-ldap/ldap/v3"
@@ -166,6 +168,9 @@ func (ctrlEncodeStream) Oracle(c Case, impl string) (bool, string, string) {
 		{Kind: "modify", ID: 5, DN: "cn=x", Changes: []Chg{{Op: 1, Type: "mail"}}},
 		{Kind: "add", ID: 5, DN: "cn=x", AddAttrs: []Att{{Type: "cn", Vals: []string{"x"}}}},
 		{Kind: "delete", ID: 5, DN: "cn=x"},
+		// legal but unusual shapes: nothing to modify, nothing to add - the controls still belong to the request
+		{Kind: "modify", ID: 5, DN: "cn=x"},
+		{Kind: "add", ID: 5, DN: "cn=x"},
 	}
 	rq := reqs[int(crc32.ChecksumIEEE([]byte(c.Line)))%len(reqs)]
 	base, err := rq.Node()
@@ -237,6 +242,47 @@ func (ctrlEncodeStream) Oracle(c Case, impl string) (bool, string, string) {
 			if out != c.Expect {
 				return false, "go-ldap client recovers " + out + " want " + c.Expect, c.Kind + "/response-direction"
 			}
+		}
+	}
+	// one control object attached to responses that are encoded at the same time (a directory attaches the same
+	// control objects to every response): each encoding equals the one made alone
+	if crc32.ChecksumIEEE([]byte(c.Line))&7 == 0 {
+		alone := gldap.VerifResponseBytes(func() gldap.Response {
+			b := req.NewBindResponse(gldap.WithResponseCode(0))
+			fresh, _ := realControl(ctl)
+			b.SetControls(fresh)
+			return b
+		}())
+		var bad atomic.Value
+		for round := 0; round < 40 && bad.Load() == nil; round++ {
+			shared, _ := realControl(ctl) // a fresh object every round: its very first encodings happen together
+			start := make(chan struct{})
+			var wg sync.WaitGroup
+			for g := 0; g < 6; g++ {
+				wg.Add(1)
+				go func() {
+					defer wg.Done()
+					defer func() {
+						if r := recover(); r != nil {
+							bad.Store(fmt.Sprintf("panic: %v", r))
+						}
+					}()
+					<-start
+					for i := 0; i < 3; i++ {
+						b := req.NewBindResponse(gldap.WithResponseCode(0))
+						b.SetControls(shared)
+						if got := gldap.VerifResponseBytes(b); string(got) != string(alone) {
+							bad.Store("a response carrying a shared control object encodes differently when other responses are encoded at the same time: " + hx(got) + " want " + hx(alone))
+							return
+						}
+					}
+				}()
+			}
+			close(start)
+			wg.Wait()
+		}
+		if v := bad.Load(); v != nil {
+			return false, clip(v.(string)), c.Kind + "/shared-control"
 		}
 	}
 	return true, "", ""
